@@ -1582,6 +1582,21 @@ def check_pipe_field(case, rec):
     if yj_band(sp) and _known("N3_yj_switch_width", case):
         rec.exclude("N3_yj_switch_width")
         return
+    if case.get("norm_as") == "class" and spec is not None and spec["cls"] != "LogNormal":
+        # a normalizer given as class: every object gets its own default instance - fitting or editing the normalizer of one
+        # object must not change the pipeline of another
+        ncls_ = getattr(gs.normalizer, spec["cls"])
+        with common.quiet():
+            fa = gs.field.Field(dim=1, normalizer=ncls_)
+            l0 = float(fa.normalizer.lmbda)
+            fb = gs.field.Field(dim=1, normalizer=ncls_)
+            fb.normalizer.lmbda = l0 + 0.37
+            kx = gs.krige.Ordinary(gs.Exponential(dim=1), [[0.0, 1.0, 2.5, 4.0, 6.0]], [1.2, 2.0, 1.5, 3.1, 2.2], normalizer=ncls_, fit_normalizer=True)
+            fc = gs.field.Field(dim=1, normalizer=ncls_)
+        rec.label("class_form_instances")
+        require(float(fa.normalizer.lmbda) == l0 and float(fc.normalizer.lmbda) == l0 and fa.normalizer is not fb.normalizer and kx.normalizer is not fa.normalizer,
+                f"{spec['cls']} given as class: lmbda of an untouched field is {float(fa.normalizer.lmbda)!r} / of a new one {float(fc.normalizer.lmbda)!r} after another "
+                f"object's normalizer was edited / fitted (default {l0!r})", dict(tags, kind="shared_default_normalizer"))
     ref = mk_ref(sp)
     coords = coords_of(case["pos"], mesh, dim)
     sshape = np.shape(coords[0])
